@@ -100,16 +100,24 @@ def gen_case(rng: random.Random, tier: str) -> dict:
             parts.insert(rng.randint(0, len(parts)), rng.choice(["2", "2.5", "0.5", "3"]))
         return ":".join(parts)
 
+    extra_terms = []
+    if rng.random() < 0.35:  # the same column under a second, different encoding in the same formula
+        v = rng.choice([u for u in vars_ if u in NUM] or [NUM[0]])
+        for _ in range(10):
+            alt, _k = tnum(rng, v)
+            if alt != enc.get(v):
+                extra_terms.append(alt)
+                break
     seen, uniq = set(), []
     for t in terms:
         if frozenset(t) not in seen:
             seen.add(frozenset(t))
             uniq.append(t)
     terms = uniq
-    f = " + ".join([rng.choice(["1", "0"])] + [tstr(t) for t in terms])
+    f = " + ".join([rng.choice(["1", "0"])] + [tstr(t) for t in terms] + extra_terms)
     follow = []
     for _ in range(rng.randint(4, 6)):
-        kind = rng.choice(["same", "subset", "dup", "perm", "single", "lost_levels", "pickle", "pickle", "deepcopy", "via_function", "via_matrix"])
+        kind = rng.choice(["same", "subset", "dup", "perm", "single", "lost_levels", "pickle", "pickle", "deepcopy", "via_function", "via_matrix", "recat", "recat"])
         if kind == "same":
             rows = list(range(n))
         elif kind == "dup":
@@ -156,7 +164,12 @@ def judge(case) -> Outcome:
             return out
         for step, fu in enumerate(case["follow"]):
             rows, kind = fu["rows"], fu["kind"]
-            sub = make_frame(take_rows(case["frame"], rows))
+            subspec = take_rows(case["frame"], rows)
+            if kind == "recat":  # same categories, declared in another order: the recorded level order must still be used
+                for _nm, c in subspec["cols"]:
+                    if c["kind"] == "cat":
+                        c["categories"] = list(reversed(c["categories"]))
+            sub = make_frame(subspec)
             sp = spec
             try:
                 if kind == "pickle":
